@@ -94,6 +94,12 @@ def rules():
               (fn('const int K = 5; int b = %s;' % op), True), (fn('const int K = 5; byte b = (%s) is byte;' % op), True)]
     R += [(fn('byte b = 2 + 3;'), True), (fn('const byte C = 5; byte b = C + 1;'), True), (fn('const byte C = 5; byte b = -C + 9;'), True),
           (fn('const int K = 5; g(K + K);', pre='empty g(byte x) { } empty g(string s) { }'), False)]
+    # folds the generators did not reach (found by measuring branch coverage of hidc under all checks)
+    R += [(fn('byte b = true is byte; byte c = false is byte; int i = (true is byte) + 1; write(b is int); write(i);'), True),
+          ('empty @is_you() { int a = 1 ?? 2; const int K = 3; int b = K ?? 4; bool t = true ?? false; byte y = \'a\' ?? \'b\'; write(a + b); write(t); write(y); }', True),
+          ('empty @is_you() { sleep(1); debug(); progress(); write(1); }', True), ('empty @is_you() { sleep(true); }', False),
+          ('empty @is_you() { debug(1); }', False), ('empty f() { return; }\nint g = 1;\nempty @is_you() { f(); }', True),
+          ('return;\nempty @is_you() { }', False)]
     R += [(t, False) for t in frontend.empty_value_programs()]
     R += scope_rules()
     R += spec_rules()
